@@ -13,6 +13,14 @@
 // = one pending action; crash switch) and a harness Executor (Exec parks, the
 // explorer chooses success or failure). The explorer enumerates every order of
 // the pending actions and of the harness actions Add / advance / restart.
+//
+// Two-seam configurations (config.parkRet, names ending in "pr dr"): a Store
+// call parks twice, before its effect on the table and again before its result
+// returns to the manager goroutine. With one seam the in-memory code that
+// follows a Store call runs fused with that call's effect, so "the poller read
+// an empty failed set, a worker's MarkFailed commits, THEN the poller acts on
+// its stale result" is not among the enumerated orders; with two seams it is,
+// for every Store call of the poller, the workers and start-up.
 package main
 
 import (
@@ -56,6 +64,8 @@ type config struct {
 	maxRestarts   int
 	maxAdvances   int
 	parkAdd       bool // AddPending/AddFailed park too (else they run in the step of the Add action)
+	parkRet       bool // every parked Store call is TWO pending actions: its effect on the store, and its return to the manager goroutine
+	drain         bool // after the last budgeted action the still parked Store calls are released one by one in every order (else all at once)
 	cap           int  // wall-clock cap of the exploration in seconds (not part of the name)
 }
 
@@ -64,6 +74,12 @@ func (c config) name() string {
 		int(c.retryInterval/time.Second), int(c.t2Delay/time.Second), c.maxActions, c.maxRestarts, c.maxAdvances)
 	if c.parkAdd {
 		s += " pa"
+	}
+	if c.parkRet {
+		s += " pr"
+	}
+	if c.drain {
+		s += " dr"
 	}
 	return s
 }
@@ -224,6 +240,10 @@ type world struct {
 	vio             string
 	herr            string
 
+	// Store calls of manager goroutines whose effect has happened but which have
+	// not returned yet (parkRet): op -> number of such calls (vacuity counters only)
+	inflight map[string]int
+
 	// vacuity flags / counters (exploration phase only)
 	fl map[string]int
 }
@@ -337,6 +357,70 @@ func (s *hstore) gate(op, key string, park bool) error {
 	return nil
 }
 
+// ret is the second seam of a Store call (cfg.parkRet): the real operation has
+// taken effect on the sqlite table, the calling manager goroutine parks again
+// before it sees the result. Everything the goroutine does in memory with the
+// result (flags, channel sends, its next decision) is thereby a step of its own,
+// schedulable after any number of other goroutines' Store effects. A crash
+// while parked here: the effect stays, the goroutine never sees the result.
+func (s *hstore) ret(op, key string, parked bool, n int) error {
+	w := s.w
+	if !w.cfg.parkRet {
+		return nil
+	}
+	w.mu.Lock()
+	dead, pass := w.crashed[s.gen], w.passthrough
+	if !dead && !pass && !w.closing {
+		// which effects landed inside the window of another call (vacuity counters)
+		if op == "MarkFailed" || op == "AddFailed" {
+			if w.inflight["GetFailed"] > 0 {
+				w.flag("failWriteInsideGetFailedWindow")
+			}
+			if w.inflight["GetFailed/empty"] > 0 {
+				w.flag("failWriteInsideEmptyGetFailedWindow")
+			}
+		}
+		if op == "GetFailed" && (w.inflight["MarkFailed"] > 0 || w.inflight["AddFailed"] > 0) {
+			w.flag("getFailedInsideFailWriteWindow")
+		}
+		for o, c := range w.inflight {
+			if c > 0 && !strings.Contains(o, "/") {
+				w.flag("effectInsideWindowOfAnotherCall")
+				break
+			}
+		}
+	}
+	w.mu.Unlock()
+	if dead {
+		return errCrashed
+	}
+	if pass || !parked {
+		return nil
+	}
+	l := fmt.Sprintf("S g%d %s.ret", s.gen, op)
+	if key != "" {
+		l += " " + key
+	}
+	w.mu.Lock()
+	w.inflight[op]++
+	if op == "GetFailed" && n == 0 {
+		w.inflight["GetFailed/empty"]++
+	}
+	w.mu.Unlock()
+	w.c.Park(l)
+	w.mu.Lock()
+	w.inflight[op]--
+	if op == "GetFailed" && n == 0 {
+		w.inflight["GetFailed/empty"]--
+	}
+	dead = w.crashed[s.gen]
+	w.mu.Unlock()
+	if dead {
+		return errCrashed
+	}
+	return nil
+}
+
 func (s *hstore) unexpected(op string, err error) {
 	if err == nil || err == persistedretry.ErrTaskExists || err == persistedretry.ErrTaskNotFound {
 		return
@@ -353,6 +437,15 @@ func (s *hstore) add(op string, t persistedretry.Task, f func(persistedretry.Tas
 	if err := s.gate(op, k, w.cfg.parkAdd); err != nil {
 		return err
 	}
+	err := s.addEffect(op, t, f)
+	if e := s.ret(op, k, w.cfg.parkAdd, 0); e != nil {
+		return e
+	}
+	return err
+}
+
+func (s *hstore) addEffect(op string, t persistedretry.Task, f func(persistedretry.Task) error) error {
+	w, k := s.w, taskKey(t)
 	w.dbmu.Lock()
 	defer w.dbmu.Unlock()
 	existed := w.rowExists(k)
@@ -392,10 +485,16 @@ func (s *hstore) MarkPending(t persistedretry.Task) error {
 	if err := s.gate("MarkPending", taskKey(t), true); err != nil {
 		return err
 	}
-	s.w.dbmu.Lock()
-	defer s.w.dbmu.Unlock()
-	err := s.inner.MarkPending(t)
-	s.unexpected("MarkPending", err)
+	err := func() error {
+		s.w.dbmu.Lock()
+		defer s.w.dbmu.Unlock()
+		err := s.inner.MarkPending(t)
+		s.unexpected("MarkPending", err)
+		return err
+	}()
+	if e := s.ret("MarkPending", taskKey(t), true, 0); e != nil {
+		return e
+	}
 	return err
 }
 
@@ -404,12 +503,18 @@ func (s *hstore) MarkFailed(t persistedretry.Task) error {
 	if err := s.gate("MarkFailed", k, true); err != nil {
 		return err
 	}
-	s.w.dbmu.Lock()
-	defer s.w.dbmu.Unlock()
-	err := s.inner.MarkFailed(t)
-	s.unexpected("MarkFailed", err)
-	if err == nil {
-		s.w.stamp("last_attempt", k)
+	err := func() error {
+		s.w.dbmu.Lock()
+		defer s.w.dbmu.Unlock()
+		err := s.inner.MarkFailed(t)
+		s.unexpected("MarkFailed", err)
+		if err == nil {
+			s.w.stamp("last_attempt", k)
+		}
+		return err
+	}()
+	if e := s.ret("MarkFailed", k, true, 0); e != nil {
+		return e
 	}
 	return err
 }
@@ -420,17 +525,23 @@ func (s *hstore) Remove(t persistedretry.Task) error {
 		return err
 	}
 	w := s.w
-	w.dbmu.Lock()
-	defer w.dbmu.Unlock()
-	existed := w.rowExists(k)
-	err := s.inner.Remove(t)
-	s.unexpected("Remove", err)
-	if err == nil && existed {
-		w.mu.Lock()
-		if w.succSinceInsert[k] == 0 {
-			w.violate("task %s left the store (Remove) although no Exec of it returned nil since it was stored", k)
+	err := func() error {
+		w.dbmu.Lock()
+		defer w.dbmu.Unlock()
+		existed := w.rowExists(k)
+		err := s.inner.Remove(t)
+		s.unexpected("Remove", err)
+		if err == nil && existed {
+			w.mu.Lock()
+			if w.succSinceInsert[k] == 0 {
+				w.violate("task %s left the store (Remove) although no Exec of it returned nil since it was stored", k)
+			}
+			w.mu.Unlock()
 		}
-		w.mu.Unlock()
+		return err
+	}()
+	if e := s.ret("Remove", k, true, 0); e != nil {
+		return e
 	}
 	return err
 }
@@ -439,10 +550,16 @@ func (s *hstore) GetPending() ([]persistedretry.Task, error) {
 	if err := s.gate("GetPending", "", true); err != nil {
 		return nil, err
 	}
-	s.w.dbmu.Lock()
-	defer s.w.dbmu.Unlock()
-	ts, err := s.inner.GetPending()
-	s.unexpected("GetPending", err)
+	ts, err := func() ([]persistedretry.Task, error) {
+		s.w.dbmu.Lock()
+		defer s.w.dbmu.Unlock()
+		ts, err := s.inner.GetPending()
+		s.unexpected("GetPending", err)
+		return ts, err
+	}()
+	if e := s.ret("GetPending", "", true, len(ts)); e != nil {
+		return nil, e
+	}
 	return ts, err
 }
 
@@ -450,10 +567,16 @@ func (s *hstore) GetFailed() ([]persistedretry.Task, error) {
 	if err := s.gate("GetFailed", "", true); err != nil {
 		return nil, err
 	}
-	s.w.dbmu.Lock()
-	defer s.w.dbmu.Unlock()
-	ts, err := s.inner.GetFailed()
-	s.unexpected("GetFailed", err)
+	ts, err := func() ([]persistedretry.Task, error) {
+		s.w.dbmu.Lock()
+		defer s.w.dbmu.Unlock()
+		ts, err := s.inner.GetFailed()
+		s.unexpected("GetFailed", err)
+		return ts, err
+	}()
+	if e := s.ret("GetFailed", "", true, len(ts)); e != nil {
+		return nil, e
+	}
 	return ts, err
 }
 
@@ -741,9 +864,13 @@ func (w *world) afterStep(label string, before quiescent) quiescent {
 		}
 		if ac.reached && ac.dup {
 			w.flag("dupAdd")
-			if ac.err != nil {
+			if ac.err != nil && strings.Contains(ac.err.Error(), errCrashed.Error()) {
+				// (parkRet) the process crashed while the Add was between its Store call's
+				// effect and its return: no caller is left to see a result
+				w.flag("crashInsideDupAdd")
+			} else if ac.err != nil {
 				w.violate("Add of the already stored task %s returned an error: %v", ac.key, ac.err)
-			} else if cls == "A" || cls == "S AddPending" || cls == "S AddFailed" {
+			} else if cls == "A" || cls == "S AddPending" || cls == "S AddFailed" || cls == "S AddPending.ret" || cls == "S AddFailed.ret" {
 				// the Add's store call and return ran inside this step and nothing
 				// else was released: compare the quiescent states around it
 				if strings.HasPrefix(cls, "S") { // its own parked call is gone, nothing else
@@ -793,7 +920,7 @@ func body(cfg config) func(c *e1q.Ctl) (string, string) {
 	return func(c *e1q.Ctl) (obs, vio string) {
 		w := &world{cfg: cfg, c: c, sk: kinds[cfg.kind], crashed: map[int]bool{}, addCalls: map[persistedretry.Task]*addCall{},
 			nAdd: map[string]int{}, succSinceInsert: map[string]int{}, succTotal: map[string]int{}, accepted: map[string]bool{},
-			prev: map[string]row{}, fl: map[string]int{}}
+			prev: map[string]row{}, fl: map[string]int{}, inflight: map[string]int{}}
 		var err error
 		w.dir, err = os.MkdirTemp(scratch, "x")
 		if err != nil {
@@ -812,7 +939,10 @@ func body(cfg config) func(c *e1q.Ctl) (string, string) {
 
 		// exploration phase
 		q := w.observe()
-		for w.vio == "" && w.herr == "" && w.nActions < cfg.maxActions {
+		// (cfg.drain: after the last budgeted action w.actions offers nothing more and
+		// the loop goes on until no Store call is parked any more: every order of
+		// the remaining effects / returns is enumerated too)
+		for w.vio == "" && w.herr == "" && (w.nActions < cfg.maxActions || cfg.drain) {
 			if !c.Step(w.actions) {
 				break
 			}
@@ -946,12 +1076,12 @@ func body(cfg config) func(c *e1q.Ctl) (string, string) {
 // ---------------------------------------------------------------------------
 
 func configs(thorough bool) []config {
-	if v := os.Getenv("C30_CFG"); v != "" { // development only: "kind in re ri delay actions restarts advances"
+	if v := os.Getenv("C30_CFG"); v != "" { // development only: "kind in re ri delay actions restarts advances parkAdd parkRet drain"
 		var c config
 		var ri, d int
-		var pa int
-		fmt.Sscanf(v, "%s %d %d %d %d %d %d %d %d", &c.kind, &c.inBuf, &c.reBuf, &ri, &d, &c.maxActions, &c.maxRestarts, &c.maxAdvances, &pa)
-		c.parkAdd, c.cap = pa == 1, 280
+		var pa, pr, dr int
+		fmt.Sscanf(v, "%s %d %d %d %d %d %d %d %d %d %d", &c.kind, &c.inBuf, &c.reBuf, &ri, &d, &c.maxActions, &c.maxRestarts, &c.maxAdvances, &pa, &pr, &dr)
+		c.parkAdd, c.parkRet, c.drain, c.cap = pa == 1, pr == 1, dr == 1, 280
 		c.retryInterval, c.t2Delay = time.Duration(ri)*time.Second, time.Duration(d)*time.Second
 		return []config{c}
 	}
@@ -960,12 +1090,18 @@ func configs(thorough bool) []config {
 		return []config{
 			{kind: "wb", inBuf: 0, reBuf: 0, retryInterval: s5, maxActions: 6, maxRestarts: 1, maxAdvances: 2, cap: 28},
 			{kind: "wb", inBuf: 1, reBuf: 1, retryInterval: s5, maxActions: 6, maxRestarts: 1, maxAdvances: 2, cap: 28},
+			// two seams per Store call (effect / return to the manager goroutine): what a
+			// manager goroutine does in memory with a Store result is a step of its own,
+			// ordered in every way against the other goroutines' Store effects; the calls
+			// still parked after the last action are drained in every order
+			{kind: "wb", inBuf: 0, reBuf: 0, retryInterval: s5, maxActions: 4, maxRestarts: 1, maxAdvances: 2, parkRet: true, drain: true, cap: 40},
+			{kind: "wb", inBuf: 1, reBuf: 1, retryInterval: s5, maxActions: 4, maxRestarts: 1, maxAdvances: 2, parkRet: true, drain: true, cap: 20},
 		}
 	}
 	return []config{
 		// depth 7, two restarts, both buffer settings, write-back store
-		{kind: "wb", inBuf: 0, reBuf: 0, retryInterval: s5, maxActions: 7, maxRestarts: 2, maxAdvances: 3, cap: 300},
-		{kind: "wb", inBuf: 1, reBuf: 1, retryInterval: s5, maxActions: 7, maxRestarts: 2, maxAdvances: 3, cap: 200},
+		{kind: "wb", inBuf: 0, reBuf: 0, retryInterval: s5, maxActions: 7, maxRestarts: 2, maxAdvances: 3, cap: 250},
+		{kind: "wb", inBuf: 1, reBuf: 1, retryInterval: s5, maxActions: 7, maxRestarts: 2, maxAdvances: 3, cap: 160},
 		// tag replication store
 		{kind: "tr", inBuf: 0, reBuf: 0, retryInterval: s5, maxActions: 6, maxRestarts: 2, maxAdvances: 2, cap: 45},
 		{kind: "tr", inBuf: 1, reBuf: 1, retryInterval: s5, maxActions: 6, maxRestarts: 2, maxAdvances: 2, cap: 45},
@@ -979,7 +1115,16 @@ func configs(thorough bool) []config {
 		// AddPending / AddFailed are separate pending actions too (crash / interleaving before the insert)
 		{kind: "wb", inBuf: 0, reBuf: 0, retryInterval: s5, maxActions: 5, maxRestarts: 1, maxAdvances: 2, parkAdd: true, cap: 45},
 		// depth 8 (time-capped: not expected to complete)
-		{kind: "wb", inBuf: 0, reBuf: 0, retryInterval: s5, maxActions: 8, maxRestarts: 2, maxAdvances: 3, cap: 60},
+		{kind: "wb", inBuf: 0, reBuf: 0, retryInterval: s5, maxActions: 8, maxRestarts: 2, maxAdvances: 3, cap: 45},
+		// two seams per Store call (effect / return) + drain of the parked calls in every order:
+		// both buffer settings, both stores, a delayed t2 (AddFailed path), Add's own Store call
+		// with both seams, and one deeper (time-capped) layer
+		{kind: "wb", inBuf: 0, reBuf: 0, retryInterval: s5, maxActions: 4, maxRestarts: 1, maxAdvances: 2, parkRet: true, drain: true, cap: 40},
+		{kind: "wb", inBuf: 1, reBuf: 1, retryInterval: s5, maxActions: 4, maxRestarts: 1, maxAdvances: 2, parkRet: true, drain: true, cap: 20},
+		{kind: "tr", inBuf: 0, reBuf: 0, retryInterval: s5, maxActions: 4, maxRestarts: 1, maxAdvances: 2, parkRet: true, drain: true, cap: 40},
+		{kind: "wb", inBuf: 0, reBuf: 0, retryInterval: s5, t2Delay: 15 * time.Second, maxActions: 4, maxRestarts: 1, maxAdvances: 3, parkRet: true, drain: true, cap: 40},
+		{kind: "wb", inBuf: 0, reBuf: 0, retryInterval: s5, maxActions: 3, maxRestarts: 1, maxAdvances: 2, parkAdd: true, parkRet: true, drain: true, cap: 40},
+		{kind: "wb", inBuf: 0, reBuf: 0, retryInterval: s5, maxActions: 5, maxRestarts: 1, maxAdvances: 2, parkRet: true, drain: true, cap: 60},
 	}
 }
 
@@ -1071,13 +1216,14 @@ func main() {
 		vrt.WorkerMain(hs)
 
 		run := evid.New("C30", "exploration")
-		run.Rule = "E1q: every order of the pending actions of the real persistedretry.manager goroutines (each Store call of a worker / the retry poller / manager start-up parks; each Exec parks and is released with success or failure) and of the harness actions Add(t1) x2, Add(t2), advance past the next poll tick, restart (crash switch + new manager on the same sqlite file), up to the action / restart budget; then a closing phase (executor succeeds, time advances). distinct = distinct outcome classes (which crash points / overflow / duplicate / retry paths an execution took) per configuration."
+		run.Rule = "E1q: every order of the pending actions of the real persistedretry.manager goroutines (each Store call of a worker / the retry poller / manager start-up parks; each Exec parks and is released with success or failure) and of the harness actions Add(t1) x2, Add(t2), advance past the next poll tick, restart (crash switch + new manager on the same sqlite file), up to the action / restart budget; then a closing phase (executor succeeds, time advances tick by tick for up to 12 poll rounds). Configurations marked 'pr dr': every Store call is TWO pending actions, its effect on the sqlite table and ('.ret') the return of its result to the manager goroutine, so each in-memory section of the poller / a worker / start-up between two Store effects is a step of its own and any number of Store effects of the other goroutines can land between a read (GetFailed, GetPending) or write (MarkFailed, MarkPending, Remove) and what its caller does next; after the last budgeted action the still parked effects / returns are released one at a time in every order. distinct = distinct outcome classes (which crash points / overflow / duplicate / retry paths / effect-inside-window collisions an execution took) per configuration."
 		run.Assume("single clock: sqlite CURRENT_TIMESTAMP (wall clock) is replaced by the bubble's virtual time for created_at / last_attempt (the Store seam re-stamps the row right after the real statement): DB host clock == process clock")
 		run.Assume("a crash is modelled at Store-call boundaries: the pending call and every later Store call of the old manager fail without effect; a pending Exec of the old manager did not succeed; sqlite statements are atomic")
 		run.Assume("the workers' throttle sleep (MaxTaskThroughput) elapses between two steps (3ms of virtual time after every step)")
 		run.Assume("the first Store call of an Add (AddPending/AddFailed) is executed in the same step as the Add action: everything an Add does before it is local")
 		run.Assume("small scope: tasks t1,t2 (t2 only after t1: symmetric), 1 incoming + 1 retry worker, PollRetriesInterval 10s, RetryInterval 5s (one thorough configuration 15s), advance = to the next poll tick + 1s")
 		run.Assume("alphabet restrictions: the second Add(t1) is offered only while t1 is stored (the duplicate case); advance is not offered while a GetFailed of the poller is still parked; restart is offered when it interrupts something (a parked Store call, a running Exec, a queued task); the exploration ends with the last budgeted action (calls still parked then are released at the start of the closing phase)")
+		run.Assume("two-seam configurations (pr dr): <=4 actions and <=1 restart (thorough: one time-capped 5-action layer; 3 actions where Add's own Store call has both seams too); a crash between effect and return keeps the effect and the caller never sees the result (an Add interrupted that way has no caller left and is not judged); Execs still running after the last budgeted action are answered (success) at the start of the closing phase; two in-memory sections of different manager goroutines with no Store call between them are not interleaved at statement level")
 		run.Assume("tagreplication.NewStore runs with a validator that accepts every remote (its deletion of tasks of removed remotes is not part of the property)")
 
 		if p := run.ReplayPath(); p != "" {
@@ -1114,8 +1260,12 @@ func main() {
 		for k, v := range agg {
 			run.Set("executions_with:"+k, v)
 		}
-		for _, need := range []string{"crashBetweenExecOkAndRemove", "crash@Exec", "dupAdd", "execFail", "crash@MarkFailed"} {
-			if agg[need] == 0 && run.NViolations() == 0 {
+		// (the last four: a failing write landed between the effect and the return of the
+		// poller's read / a read landed inside a failing write's window / a crash hit a
+		// call between effect and return — the collisions the two-seam part exists for)
+		for _, need := range []string{"crashBetweenExecOkAndRemove", "crash@Exec", "dupAdd", "execFail", "crash@MarkFailed",
+			"failWriteInsideEmptyGetFailedWindow", "failWriteInsideGetFailedWindow", "getFailedInsideFailWriteWindow", "crash@MarkFailed.ret"} {
+			if agg[need] == 0 && run.NViolations() == 0 && os.Getenv("C30_CFG") == "" {
 				run.Fatal(fmt.Errorf("vacuous: no execution with %s", need))
 			}
 		}
